@@ -45,6 +45,7 @@ PLAN = {
 }
 
 WORLD_TIMEOUT = {"quick": 240, "thorough": 900}
+WORKER_AS_LIMIT = 8 * 2**30
 
 
 # ---------------------------------------------------------------------------
@@ -59,6 +60,13 @@ def _worker(wid, prop, root, tier, counter, n_worlds, deadline, outq, workdir, u
     from matsim.ops import HarnessError, run_world
     from matsim.worlds import gen_world
 
+    try:
+        import resource
+
+        # a runaway allocation must fail inside the worker (MemoryError), not take the sandbox down
+        resource.setrlimit(resource.RLIMIT_AS, (WORKER_AS_LIMIT, WORKER_AS_LIMIT))
+    except Exception:
+        pass
     fh = open(os.path.join(workdir, "fh.%d" % wid), "w")
     faulthandler.enable(file=fh)
     jfd = os.open(os.path.join(workdir, "journal.%d" % wid), os.O_WRONLY | os.O_CREAT | os.O_TRUNC)
@@ -323,7 +331,7 @@ def run_check(prop, tier, root, workers=None, worlds=None, wall=None, world_list
                     log("worker %d died with signal %d in %s" % (wid, -rc, j))
                 else:
                     agg["harness_errors"].append({"world": (j or {}).get("world"), "harness_error": "worker exit code %s (watchdog/timeouts) at %s" % (rc, j)})
-                if time.time() < deadline and counter.value < plan["worlds"]:
+                if time.time() < deadline and counter.value < plan["worlds"] and next_wid[0] < 4 * workers:
                     spawn()
         if time.time() > hard_deadline:
             agg["harness_errors"].append({"harness_error": "driver hard deadline exceeded"})
